@@ -22,7 +22,7 @@ import ast
 import itertools
 
 from verifkit import pat
-from verifkit.absrun import Obj, Runner
+from verifkit.absrun import Obj, Runner, StandIn
 from verifkit.core import Outcome
 from verifkit.finite import Undecided
 
@@ -435,6 +435,103 @@ def r03_2(ctx):
     return out
 
 
+class Reg(StandIn):
+    """stand-in region with tabulated subset facts; every other observable is adversarial"""
+
+    def __init__(self, name, facts, inv=False, kind="SimpleShape", subshapes=()):
+        self.name, self.facts, self.inv, self.kind, self.subshapes = name, facts, inv, kind, tuple(subshapes)
+        self.jordans = (Obj("curve_of_" + name),)
+
+    def __invert__(self):
+        return Reg(self.name, self.facts, not self.inv, self.kind, self.subshapes)
+
+    def _subset(self, x):
+        """is x a subset of self?  facts: {(sub, sup): bool} on the un-complemented names"""
+        if not isinstance(x, Reg):
+            raise Undecided("containment of a foreign object")
+        if x.inv == self.inv:
+            key = (x.name, self.name) if not self.inv else (self.name, x.name)      # ~a <= ~b  <=>  b <= a
+            if key in self.facts:
+                return self.facts[key]
+        raise Undecided(f"subset fact ({'~' if x.inv else ''}{x.name} <= {'~' if self.inv else ''}{self.name}) not tabulated")
+
+    def __contains__(self, x):
+        return self._subset(x)
+
+    def contains_shape(self, x):
+        return self._subset(x)
+
+    _contains_shape = contains_shape
+
+    def box(self):
+        from rules.C02 import AdvBox
+        return AdvBox()
+
+    def __float__(self):
+        return -1.0
+
+
+def r03_2b(ctx):
+    out = Outcome("R03.2b", "composite containment is *exactly* the quantified subset claim: on every truth assignment of "
+                            "the nested subset facts the answer is all(...) / any(...), with adversarial boxes and areas",
+                  floor=4)
+    out.exhaustive = True
+
+    def isinstance_hook(rn, ev, call, name, recv, args, kwargs):
+        if name == "isinstance":
+            c = call.args[1]
+            names = [c.id] if isinstance(c, ast.Name) else [e.id for e in c.elts]
+            k = getattr(args[0], "kind", None)
+            return True if k is None else any(n in ctx.model.mro(k) for n in names)
+        return NotImplemented
+    specs = [
+        ("shape.ConnectedShape._contains_shape", "self", "SimpleShape", all, "other <= sub"),
+        ("shape.DisjointShape._contains_shape", "self", "SimpleShape", any, "other <= sub"),
+        ("shape.DisjointShape._contains_shape", "self", "ConnectedShape", any, "other <= sub"),
+        ("shape.DisjointShape._contains_shape", "other", "DisjointShape", all, "sub <= self"),
+        ("shape.SimpleShape._contains_shape", "other", "ConnectedShape", any, "sub <= self"),
+        ("shape.SimpleShape._contains_shape", "other", "DisjointShape", all, "sub <= self"),
+    ]
+    for q, owner, other_kind, agg, claim in specs:
+        fn = ctx.fn(q)
+        wrong, und = [], None
+        for answers in itertools.product((True, False), repeat=3):
+            facts = {}
+            names = [f"s{i}" for i in range(3)]
+            fixed = "O" if owner == "self" else "S"
+            for n, a in zip(names, answers):
+                if claim == "other <= sub":
+                    facts[(fixed, n)] = a
+                    facts[(n, fixed)] = not a         # the converse claim answers the opposite (adversarial)
+                else:
+                    facts[(n, fixed)] = a
+                    facts[(fixed, n)] = not a
+            subs = [Reg(n, facts) for n in names]
+            if owner == "self":
+                S = Reg("S", facts, kind=fn.cls, subshapes=subs)
+                O = Reg("O", facts, kind=other_kind)
+            else:
+                S = Reg("S", facts, kind=fn.cls)
+                O = Reg("O", facts, kind=other_kind, subshapes=subs)
+            try:
+                got = Runner(ctx, set(), isinstance_hook).call_fn(fn, [S, O])
+            except Undecided as ex:
+                und = str(ex)
+                break
+            if got is not agg(answers):
+                wrong.append((answers, got))
+        word = "all" if agg is all else "any"
+        label = f"[other is a {other_kind}]"
+        if und:
+            out.undecided(q, f"{label} not interpretable: {und}", where=fn.where())
+        elif wrong:
+            out.bad(q, f"{label} containment is not {word}({claim} over the subshapes)", where=fn.where(),
+                    detail=f"{len(wrong)} of 8 cells wrong, e.g. facts {wrong[0][0]} -> {wrong[0][1]!r}")
+        else:
+            out.ok(q, f"{label} 8 cells: result == {word}({claim})", where=fn.where())
+    return out
+
+
 def r03_3(ctx):
     out = Outcome("R03.3", "singleton guards and kind dispatch: Empty is inside everything, Whole inside nothing "
                            "defined; SimpleShape dispatches simple operands to the pairwise decision function", floor=5)
@@ -550,4 +647,4 @@ def r03_5(ctx):
     return o
 
 
-RULES = [r03_1, r03_2, r03_3, r03_4, r03_5]
+RULES = [r03_1, r03_2, r03_2b, r03_3, r03_4, r03_5]
